@@ -326,6 +326,10 @@ func (h *SexpHash) TypeCheckField(key Sexp, val Sexp) error {
 				if len(a.Val) == 0 {
 					return nil // okay
 				}
+				// a non-empty array of untyped elements (lists, functions,
+				// hashes) has no type either; without this return the nil
+				// obsTyp was dereferenced below.
+				return fmt.Errorf("%v has nil Type", val.SexpString(nil))
 			case *SexpSentinel:
 				return nil // okay
 			default:
